@@ -213,10 +213,19 @@ func c03Gen(t *rapid.T, cx *h.Ctx) C03Case {
 			target := rapid.IntRange(0, np-1).Draw(t, "nfpos")
 			dim := rapid.IntRange(0, gm.Dim(ct)-1).Draw(t, "nfdim")
 			val := rapid.SampledFrom([]float64{math.NaN(), math.Inf(1), math.Inf(-1)}).Draw(t, "nfval")
+			// sometimes a second non-finite value in the same position (X and Y both: +Inf/-Inf, NaN/Inf, ...)
+			dim2, val2 := -1, 0.0
+			if rapid.IntRange(0, 2).Draw(t, "nfsecond") == 0 {
+				dim2 = rapid.IntRange(0, gm.Dim(ct)-1).Draw(t, "nfdim2")
+				val2 = rapid.SampledFrom([]float64{math.NaN(), math.Inf(1), math.Inf(-1)}).Draw(t, "nfval2")
+			}
 			i := 0
 			g = g.MapPositions(func(p []gm.F, _ int) []gm.F {
 				if i == target {
 					p[dim] = gm.F(val)
+					if dim2 >= 0 && dim2 != dim {
+						p[dim2] = gm.F(val2)
+					}
 				}
 				i++
 				return p
